@@ -5,7 +5,8 @@ VERIF = os.path.dirname(os.path.dirname(os.path.abspath(__file__)))
 REPO = os.environ.get('VERIF_REPO', '/repo')
 BUILD = os.path.join(VERIF, 'build')
 ENGINE = os.path.join(VERIF, 'engine')
-EVID = os.path.join(VERIF, 'evidence')
+# evidence/ describes runs against /repo itself; a run against another tree (VERIF_REPO=<scratch>, used to try seeded changes) writes elsewhere
+EVID = os.path.join(VERIF, 'evidence') if REPO == '/repo' else os.path.join(VERIF, 'build', 'evidence_other_tree')
 REPLAYS = os.path.join(VERIF, 'replays')
 NCPU = os.cpu_count() or 4
 SEED = int(os.environ.get('VERIF_SEED', '0') or 0)
